@@ -78,7 +78,7 @@ def declare_cells(V, skel, prefix="c"):
                     else:
                         v = V.int(nm, 48, 57)
                 elif kind == "oint":
-                    if skel.get("score_dots"):
+                    if skel.get("score_dots") is True or r in (skel.get("score_dots") or []):
                         v = V.int(nm, 46, 46)                              # the '.' placeholder in every record
                     else:
                         v = V.int(nm, 48, 57)
